@@ -766,7 +766,7 @@ def c19_instances(tier):
          simple_inst("ctor_instance", "c16_ctor__2x2__n3", "[2, 2], 3", "Array::from", "C16 under f32: refusal does not depend on the float width", "dims [2,2], 3 values", unwind=18, expect_panic=True),
          graph_inst("diamond", GRAPHS["diamond"]), simple_inst("track_rule_instance", "c09_rule_matmul_c", "5", "matmul", "C09 under f32", "symbolic flags", timeout=1200)]
     if tier == "thorough":
-        I += [ew_inst("mul", [2, 1], [1, 3], full=True), mm_inst([2, 3], False, [3, 2], False), conv_inst([], 1, 3, 3, 1, 2, 2, 1, 1, 0),
+        I += [ew_inst("mul", [2], [1], full=True), mm_inst([2, 3], False, [3, 2], False), conv_inst([], 1, 3, 3, 1, 2, 2, 1, 1, 0),
               conv_inst([2], 1, 2, 2, 1, 1, 1, 1, 1, 1), ew_grad_inst("div", [2], [2, 2]), flatten_inst([2, 2, 3], [2, 3]),
               multiuse_inst([2, 3], [3], 2), graph_inst("selfprod3", GRAPHS["selfprod3"], mode=2), softmax_inst(1, 0),
               simple_inst("update_instance", "c13_update__2__1x2__none__r1__m3", "[2], [1, 2], [], 1, 3, 0.5", "GradientDescent::update", "C13 under f32", "", unwind=14)]
